@@ -43,6 +43,30 @@ def d56_trigger(src: str) -> bool:
     return bool(re.search(r"(?m)^\[\^[^\]\n]+\]:[ \t]*\n[ \t]+\S", src))
 
 
+def d57_trigger(src: str) -> bool:
+    """a list inside a footnote definition: on the label line, or on a continuation line (finding D57)"""
+    import re
+    lines = src.split("\n")
+    indef = False
+    for l in lines:
+        body = re.sub(r"^(?:> ?)+", "", l)
+        m = re.match(r" {0,3}\[\^[^\]\n]+\]:[ \t]*(.*)$", body)
+        if m:
+            indef = True
+            if re.match(r"(?:[-*+]|\d+[.)])(?:[ \t]|$)", m.group(1)):
+                return True
+            continue
+        if indef:
+            if body.strip() == "":
+                continue
+            if not body.startswith("    ") and not body.startswith("\t"):
+                indef = False
+                continue
+            if re.match(r"\s*(?:[-*+]|\d+[.)])(?:[ \t]|$)", body):
+                return True
+    return False
+
+
 def option_cube(tier: str):
     """(name, kwargs) over width x mode x typography/cleanups x list spacing, plus plaintext."""
     widths = (-1, 0, 1, 10, 20, 40, 88) if tier == "thorough" else (0, 10, 40, 88)
